@@ -93,6 +93,20 @@ def run_one(prop, tier, verif_seed, job):
             res.update(outcome="BUDGET", msg=str(b))
         except Discard as d:
             res.update(outcome="DISCARD", msg=str(d))
+        except Exception as e:
+            # an exception the harness did not expect: if it was raised inside the code under
+            # test (innermost frame in localcider/) the call the property needs has failed
+            tb = traceback.extract_tb(e.__traceback__)
+            inner = tb[-1] if tb else None
+            in_lib = bool(inner) and (os.sep + "localcider" + os.sep) in inner.filename and (os.sep + "dst" + os.sep) not in inner.filename
+            lib_frames = [f for f in tb if (os.sep + "localcider" + os.sep) in f.filename]
+            if in_lib or (lib_frames and not isinstance(e, (AssertionError,)) and (os.sep + "dst" + os.sep) not in inner.filename):
+                fr = lib_frames[-1]
+                res.update(outcome="VIOLATION", kind="unexpected_exception", key="unexpected_exception:%s:%s" % (type(e).__name__, fr.name),
+                           msg="%s: %s raised in %s (%s:%d) where the harness expected the call to succeed" % (
+                               type(e).__name__, e, fr.name, os.path.basename(fr.filename), fr.lineno), event=ctx.log.n)
+            else:
+                raise
         res.update(digest=ctx.log.digest(), nevents=ctx.log.n, counters=ctx.counters, probes=ctx.probes,
                    faults=ctx.faults, sigs=sorted(ctx.sigs), known=ctx.known,
                    nontrivial=bool(ctx.nontrivial), sim_seconds=ctx.sim_seconds)
